@@ -118,6 +118,7 @@ theorem condense_mass_label_concrete (env : Pept.Env) (mono : Bool) (a n : Annot
     (hiso : a.isotope = some (m0 :: L)) (hl : parseIsotopeMods (envOf env mono).knownLabel (m0 :: L) = .ok lm)
     (hr : InRange a) (hint : ∀ i : ℤ, (envOf env mono).mu (.int i) = i)
     (hres : ∀ c, condenseStatic a = .ok c → ∀ m ∈ allMods c, isBad (envOf env mono) m = false)
+    (hrule : absentRuleBad (envOf env mono) a = false)
     (h : condenseToMassAnn (envOf env mono) a p = .ok n)
     (hδ : ∀ c, condenseStatic a = .ok c → ∀ m ∈ outsideMods c,
       |AbsMass.modMass (envOf env mono) m - AbsMass.modMass (envC (envOf env mono)) m| ≤ δ) :
@@ -125,7 +126,7 @@ theorem condense_mass_label_concrete (env : Pept.Env) (mono : Bool) (a n : Annot
       massOf (envOf env mono) a = .ok x ∧
       |outMass (envOf env mono) c s p - x| ≤ (writtenL c s : ℚ) * halfUlp p +
         (droppedL (envOf env mono) lm c : ℚ) * threshold + δ * ((outsideMods c).length : ℚ) :=
-  C18.condense_mass_label_delta (envOf env mono) (coherent_envOf env mono) a n p m0 L lm δ hiso hl hr hint hres h hδ
+  C18.condense_mass_label_delta (envOf env mono) (coherent_envOf env mono) a n p m0 L lm δ hiso hl hr hint hres hrule h hδ
 
 /-- what is assumed about the RESOLVED modification masses, in terms of the resolver alone: a plain shift is weighed as that
 shift; a value with a composition has a tabulated mass within `δ` of the mass of that composition under the generated
@@ -173,13 +174,14 @@ theorem condense_mass_label_resolved (env : Pept.Env) (mono : Bool) (a n : Annot
     (hiso : a.isotope = some (m0 :: L)) (hl : parseIsotopeMods (envOf env mono).knownLabel (m0 :: L) = .ok lm)
     (hr : InRange a) (hint : ∀ i : ℤ, (envOf env mono).mu (.int i) = i)
     (hres : ∀ c, condenseStatic a = .ok c → ∀ m ∈ allMods c, isBad (envOf env mono) m = false)
+    (hrule : absentRuleBad (envOf env mono) a = false)
     (h : condenseToMassAnn (envOf env mono) a p = .ok n) :
     ∃ c s x, condenseStatic a = .ok c ∧ shiftsOf (envOf env mono) c p = .ok s ∧ n = render c s p ∧
       massOf (envOf env mono) a = .ok x ∧
       |outMass (envOf env mono) c s p - x| ≤ (writtenL c s : ℚ) * halfUlp p +
         (droppedL (envOf env mono) lm c : ℚ) * threshold + δ * multSum (outsideMods c) := by
   obtain ⟨c, s, x, hcd, hs, hn', hx, hb⟩ :=
-    C18.condense_mass_label (envOf env mono) (coherent_envOf env mono) a n p m0 L lm hiso hl hr hint hres h
+    C18.condense_mass_label (envOf env mono) (coherent_envOf env mono) a n p m0 L lm hiso hl hr hint hres hrule h
   refine ⟨c, s, x, hcd, hs, hn', hx, ?_⟩
   have hsl := slack_leW (envOf env mono) c δ (fun m hm => by
     apply modMass_close env mono δ hclose m
